@@ -4,8 +4,8 @@ from vlib import Job
 FAM = [('best', 'best'), ('bn', 'bose_nelson'), ('bnp', 'bose_nelson_parameter')]
 
 
-BYTES_UPTO = 6
-TO = 120
+BYTES_UPTO = 4
+TO = 600
 
 
 def jobs(tier):
@@ -19,19 +19,22 @@ def jobs(tier):
             for n in range(2, 17):
               for zo in ((0, 1) if n <= BYTES_UPTO else (1,)):
                 js.append(Job(name='%s_sort%d_%s%s' % (short, n, cmp, '_01' if zo else ''), shim='networks', contract='c15_networks.c', harness='h_%s_sort%d_%s' % (short, n, cmp),
-                              enforce=['c_sort'], defines=['N=%d' % n, 'FN=w_%s_sort%d_%s' % (short, n, cmp)] + g + (['ZERO_ONE'] if zo else []), unwind=18, timeout=TO, object_bits=11,
+                              enforce=['c_sort'], defines=['N=%d' % n, 'FN=w_%s_sort%d_%s' % (short, n, cmp)] + g + (['ZERO_ONE'] if zo else []), unwind=18, timeout=TO, object_bits=11, tier='quick' if cmp == 'less' else 'thorough',
                               functions=[r'tlx::sort_networks::%s::sort%d<' % (ns, n)],
-                              what='%s::sort%d with std::%s: output ordered and a permutation, all 256^%d inputs' % (ns, n, cmp, n)))
-            js.append(Job(name='%s_dispatch_%s' % (short, cmp), shim='networks', contract='c15_networks.c', harness='h_%s_dispatch_%s' % (short, cmp),
-                          enforce=['c_sort'], defines=['DISPATCH', 'FN=w_%s_sort_%s' % (short, cmp)] + g, unwind=18, timeout=1500, object_bits=11,
-                          functions=[r'tlx::sort_networks::%s::sort<unsigned char\*, std::%s<unsigned char> ?>' % (ns, cmp)],
-                          what='%s::sort(begin, end, std::%s): every n in 0..16, every content' % (ns, cmp)))
+                              what='%s::sort%d with std::%s: output ordered and a permutation, %s' % (ns, n, cmp, 'all 2^%d zero-one inputs (zero-one principle)' % n if zo else 'all 256^%d byte inputs' % n)))
+            for n in range(0, 17):
+                js.append(Job(name='%s_dispatch%d_%s' % (short, n, cmp), shim='networks', contract='c15_networks.c', harness='h_%s_dispatch%d_%s' % (short, n, cmp),
+                              enforce=['c_sort'], defines=['DISPATCH', 'DISPATCH_N=%d' % n, 'ZERO_ONE', 'FN=w_%s_sort_%s' % (short, cmp)] + g, unwind=18, timeout=TO, object_bits=11,
+                              tier='quick' if cmp == 'less' else 'thorough',
+                              functions=[r'tlx::sort_networks::%s::sort<unsigned char\*, std::%s<unsigned char> ?>' % (ns, cmp)],
+                              what='%s::sort(begin, end, std::%s) with end - begin == %d, all zero-one contents' % (ns, cmp, n)))
     return js
 
 
 META = {
     'level': 'proof',
-    'assumptions': ['element type uint8_t with std::less and std::greater; "any strict weak order / any element type" rests on the comparator-network argument (the networks touch the data only through the compare-exchange functor)'],
+    'assumptions': ['zero-one principle: a network that sorts all 2^n zero-one inputs sorts every input, given that it touches the data only through the compare-exchange functor (CS_IfSwap contract: job cswap_*); sizes 2..4 are additionally proved over all byte values without it',
+                    'element type uint8_t with std::less and std::greater; "any strict weak order / any element type" rests on the comparator-network argument (the networks touch the data only through the compare-exchange functor)'],
     'not_decided': [],
     'explanation': 'each network is loop-free; enforced on fully symbolic byte arrays, which include all 0/1 inputs of the zero-one principle',
 }
